@@ -30,10 +30,16 @@ PUnlinkIn == pc = "unlinkIn" /\ IF Keep THEN UNCHANGED svars /\ Go("exit")
 PCleanClose  == pc = "cleanClose" /\ (CloseTmp(TRUE, FALSE) \/ CloseTmp(FALSE, FALSE)) /\ Go("cleanUnlink")
 PCleanUnlink == pc = "cleanUnlink" /\ ((UnlinkTmp(TRUE) /\ Go("exit")) \/ (UnlinkTmp(FALSE) /\ Fail("exit")))
 PExit     == pc = "exit" /\ Exit(IF failed THEN 1 ELSE 0) /\ Go("done")
+(* SIGINT / SIGPIPE.  gxz handles them only while it copies: the handler removes the temporary  *)
+(* file (there is none when the output goes to standard output) and exits with status 7.  At    *)
+(* any other moment the signal simply ends the process - that is Crash.                         *)
+PInterrupt    == pc = "copy" /\ (UnlinkOpenTmp(TRUE) \/ UnlinkOpenTmp(FALSE)) /\ Fail("exit7")
+PInterruptOut == pc = "copyOut" /\ UNCHANGED svars /\ Fail("exit7")
+PExit7        == pc = "exit7" /\ Exit(7) /\ Go("done")
 Crash     == pc \notin {"done", "dead"} /\ pc' = "dead" /\ UNCHANGED <<fs, tmpOpen, tmpDone, broken, renamed, tmpStuck, exit, failed>>
 
 PNext == POpenIn \/ PCheckTgt \/ PCopyOut \/ PCreateTmp \/ PCopy \/ PCloseTmp \/ PRename \/ PUnlinkIn
-         \/ PCleanClose \/ PCleanUnlink \/ PExit \/ Crash
+         \/ PCleanClose \/ PCleanUnlink \/ PExit \/ Crash \/ PInterrupt \/ PInterruptOut \/ PExit7
 PSpec == PInit /\ [][PNext /\ UNCHANGED cfg]_<<pvars, cfg>> /\ WF_<<pvars, cfg>>(PNext /\ UNCHANGED cfg)
 Terminates == <>(pc \in {"done", "dead"})
 =============================================================================
